@@ -245,7 +245,9 @@ def main(module: Any, argv: list[str] | None = None) -> int:
         return 2
 
     total = ShardResult()
-    for res in results:
+    for shard_index, res in enumerate(results):
+        for kept in res.kept:
+            kept["shard_index"] = shard_index
         total.evaluations += res.evaluations
         total.nontrivial += res.nontrivial
         total.distinct_nontrivial += res.distinct_nontrivial
@@ -304,12 +306,25 @@ def main(module: Any, argv: list[str] | None = None) -> int:
             traceback.print_exc()
             return 2
         if item["signature"] not in sigs:
-            print(
-                f"NONDETERMINISM property={prop}: case failed with {item['signature']} "
-                f"in the explorer but not when replayed ({sorted(sigs)})"
+            # The case may depend on the history of its shard (objects shared between the cases of a shard, e.g. a
+            # filter with stale internal state).  Re-run the whole shard: if the same case fails the same way again
+            # the violation is deterministic and history dependent; the replay artefact is then the shard.
+            shard = shard_list[item["shard_index"]]
+            try:
+                second = module.run_shard(shard)
+            except Exception:  # noqa: BLE001
+                second = None
+            reproduced = second is not None and any(
+                k["signature"] == item["signature"] and k["case"] == item["case"] for k in second.kept
             )
-            print(json.dumps(item["case"])[:2000])
-            return 2
+            if not reproduced:
+                print(
+                    f"NONDETERMINISM property={prop}: case failed with {item['signature']} "
+                    f"in the explorer but not when replayed ({sorted(sigs)}), nor when its shard was re-run"
+                )
+                print(json.dumps(item["case"])[:2000])
+                return 2
+            item["history_shard"] = shard
 
     for signature, count in known_hits.items():
         what = known_sigs[signature].get("what", "")
@@ -327,6 +342,7 @@ def main(module: Any, argv: list[str] | None = None) -> int:
                     "signature": item["signature"],
                     "case": item["case"],
                     "detail": item["detail"],
+                    "history_shard": item.get("history_shard"),
                 },
                 indent=1,
             )
@@ -394,6 +410,16 @@ def main(module: Any, argv: list[str] | None = None) -> int:
 
 def replay(module: Any, path: Path) -> int:
     data = json.loads(path.read_text())
+    quiet_numpy()
+    if data.get("history_shard") is not None:
+        # history-dependent violation: the artefact is the whole shard, the case is identified inside it
+        result = module.run_shard(data["history_shard"])
+        hits = [k for k in result.kept if k["signature"] == data["signature"] and k["case"] == data["case"]]
+        if hits:
+            print(f"FAIL property={module.PROPERTY} signature={data['signature']} (history dependent; shard re-run) detail={json.dumps(hits[0]['detail'])[:2000]}")
+            return 1
+        print(f"PASS property={module.PROPERTY} (case no longer violates when its shard is re-run)")
+        return 0
     judgement = module.run_case(data["case"])
     if judgement.violations:
         for signature, detail in judgement.violations:
